@@ -17,7 +17,7 @@ def spec(tier):
                 continue
             # the operator-count draw is split into ranges (1-2 operators / 3+ operators) to keep conditions small
             for (clo, chi) in ((-4.0, 1.9), (2.0, 4.0)):
-                if (clo > 0 and not th and pi != 0) or (clo > 0 and nops >= 3 and not th):
+                if clo > 0 and not th:
                     continue
                 sym = dict(c0=I(0, 2), zc0=("float", clo, chi), zp0=Z, zg0=Z)
                 fixed = dict(tps=tps, wmean=wmean, npipes=npipes, nops=nops, ratio=0.5, probs=list(probs), K=K)
@@ -47,10 +47,13 @@ def spec(tier):
     for (r1, r2) in ((0.0, 0.25), (0.0, 1.0), (0.75, 1.0)):
         obs.append(CH(name=f"ratio_boundary_{r1}_{r2}", harness="c15.ratio_monotone", sym=dict(zc0=("float", -4.0, 3.9), zp0=Z, zp1=Z),
                       fixed=dict(tps=1, nops=2, r1=r1, r2=r2), timeout=900))
-    tsym = dict(c0=I(0, 2), zc0=Z, zp0=Z, zp1=Z, zg0=Z)
     tfix = dict(tps=1, wmean=3.0, npipes=1, nops=2, ratio=0.5, probs=[0.3, 0.1, 0.6], K=8)
-    for w in ("query", "floor_at_one", "long_chain", "cpu_heavy", "long_gap", "second_event"):
-        obs.append(twin(f"structure_{w}", "c15.gen_structure", tsym, tfix, w))
+    obs.append(twin("structure_query", "c15.gen_structure", dict(c0=I(0, 2)), dict(tfix, probs=[0.0, 1.0, 0.0]), "query"))
+    obs.append(twin("structure_floor_at_one", "c15.gen_structure", dict(zc0=("float", -4.0, -2.1)), dict(tfix, c0=2), "floor_at_one"))
+    obs.append(twin("structure_long_chain", "c15.gen_structure", dict(zc0=("float", 2.0, 4.0), zp0=Z), dict(tfix, c0=2), "long_chain"))
+    obs.append(twin("structure_cpu_heavy", "c15.gen_structure", dict(zp0=Z), dict(tfix, c0=2), "cpu_heavy"))
+    obs.append(twin("structure_long_gap", "c15.gen_structure", dict(zg0=Z), dict(tfix, c0=1), "long_gap"))
+    obs.append(twin("structure_second_event", "c15.gen_structure", dict(zg0=Z), dict(tfix, c0=1), "second_event"))
     obs.append(twin("ratio_strict", "c15.ratio_monotone", dict(r1=("float", 0.0, 1.0), r2=("float", 0.0, 1.0), zc0=("float", -4.0, 1.9), zp0=Z),
                     dict(tps=1, nops=2), "strict"))
     obs.append(KN(name="waiting_ticks", func="vf.kernels.c15:waiting_ticks", args=dict(tier=tier), timeout=300))
